@@ -304,3 +304,15 @@ package protocol
 //@   let j = ite(j0 < len(pages), j0 + 1, j0)
 //@   ensures same(result, pages[i:j])
 
+
+// BOUNDED stand-in (not a proof for all inputs): runs of at most 3 pages (192 KiB), loop unrolled. The unbounded
+// multi-page invariant needs division by the page size under quantifiers and does not discharge in reasonable time
+// with the installed solvers (spec/parked_contiguousPages_ReadAt.txt).
+//@ func (contiguousPages).ReadAt
+//@   requires len(pages) >= 1 && len(pages) <= 3 && pagesOK(pages) && pages[0].offset <= off && off + int64(len(b)) <= pages[0].offset + int64(len(pages)) * 65536
+//@   requires forall i :: 0 <= i && i < len(pages) ==> b.base != pages[i].buffer
+//@   requires len(b) <= 0x40000000 && 0 <= pages[0].offset && pages[0].offset <= 0x1000000000000
+//@   modifies elems(b)
+//@   ensures 0 <= result0 && result0 <= len(b) && result1 == nil
+//@   ensures off + int64(len(b)) <= pages[0].offset + int64(len(pages) - 1) * 65536 + int64(pages[len(pages)-1].length) ==> result0 == len(b)
+//@   loop 0 unroll 3
